@@ -123,12 +123,22 @@ def pat_alts(p):
         for c in p["cases"]:
             out.extend(pat_alts(c))
         return out
+    return [p]
+
+
+def pat_alts_deep(p):
+    """like pat_alts, but also looks through a binder (`x @ (A | B)`) and distributes `Some(..)` over inner alternatives"""
+    p = strip_refs(p)
+    if p["k"] == "POr":
+        out = []
+        for c in p["cases"]:
+            out.extend(pat_alts_deep(c))
+        return out
     if p["k"] == "PIdent" and p.get("sub") is not None:
-        return pat_alts(p["sub"])  # `x @ (A | B)`
+        return pat_alts_deep(p["sub"])
     if p["k"] == "PTupleStruct" and p.get("segs") and p["segs"][-1] == "Some" and len(p.get("elems") or []) == 1:
-        inner = pat_alts(p["elems"][0])
+        inner = pat_alts_deep(p["elems"][0])
         if len(inner) > 1:
-            # `Some(x @ (A | B))` stands for Some(A) | Some(B)
             return [dict(p, elems=[i]) for i in inner]
     return [p]
 
